@@ -528,6 +528,9 @@ async fn client_handler<State>(
 
                         handler.cors.set_headers(&mut response.headers);
 
+                        // Set HTTP version
+                        response.version = request.version.clone();
+
                         response
                     }
                     None => error_handler(StatusCode::NotFound),
